@@ -1,7 +1,11 @@
 //! C17 — ProofGraph: insert_proof / invalidate_handle histories; observed through
 //! is_proven / lookup_by_key / get_node(..).valid after every operation.
 //! case := `<U> <K> <op;op;…>`  U,K = comma lists of handle ids / key numbers to observe
-//!         op := `i<h>:<k>:<p,p,…|->` | `x<h>`
+//!         op := `i<h>:<k>:<p,p,…|->[:<q,q,…|->]` | `x<h>`
+//!         The optional fourth field of an insertion is the `premise_keys` argument of insert_proof
+//!         (key number q stands for the text "p<q>"); absent = one key per premise ("p<premise>").
+//!         premise_keys are documented as human-readable tracing only, so the list is drawn
+//!         independently of the premises (empty, shorter, longer, permuted, duplicated, foreign).
 //! obs  := step;step;…   step := V/P/L   (see Driver/C17.lean)
 use rre_harness::*;
 use rust_rule_engine::backward::proof_graph::{FactKey, ProofGraph};
@@ -10,13 +14,19 @@ use std::collections::BTreeSet;
 
 #[derive(Clone, Debug, PartialEq)]
 enum Op {
-    Ins(u64, u64, Vec<u64>),
+    /// conclusion handle, key number, premises, premise_keys (None = one matching key per premise)
+    Ins(u64, u64, Vec<u64>, Option<Vec<u64>>),
     Inv(u64),
+}
+
+fn ins(h: u64, k: u64, ps: Vec<u64>) -> Op {
+    Op::Ins(h, k, ps, None)
 }
 
 fn show_op(o: &Op) -> String {
     match o {
-        Op::Ins(h, k, ps) => format!("i{}:{}:{}", h, k, join_nums(ps)),
+        Op::Ins(h, k, ps, None) => format!("i{}:{}:{}", h, k, join_nums(ps)),
+        Op::Ins(h, k, ps, Some(qs)) => format!("i{}:{}:{}:{}", h, k, join_nums(ps), join_nums(qs)),
         Op::Inv(h) => format!("x{}", h),
     }
 }
@@ -27,10 +37,11 @@ fn parse_op(s: &str) -> Option<Op> {
     }
     let r = s.strip_prefix('i')?;
     let t: Vec<&str> = r.split(':').collect();
-    if t.len() != 3 {
+    if t.len() != 3 && t.len() != 4 {
         return None;
     }
-    Some(Op::Ins(t[0].parse().ok()?, t[1].parse().ok()?, parse_nums(t[2])?))
+    let qs = if t.len() == 4 { Some(parse_nums(t[3])?) } else { None };
+    Some(Op::Ins(t[0].parse().ok()?, t[1].parse().ok()?, parse_nums(t[2])?, qs))
 }
 
 fn parse_case(case: &str) -> Option<(Vec<u64>, Vec<u64>, Vec<Op>)> {
@@ -68,12 +79,12 @@ fn exec(case: &str) -> String {
     let mut steps = Vec::new();
     for op in &ops {
         match op {
-            Op::Ins(h, k, ps) => g.insert_proof(
+            Op::Ins(h, k, ps, qs) => g.insert_proof(
                 FactHandle::new(*h),
                 key(*k),
                 format!("r{}", h),
                 ps.iter().map(|p| FactHandle::new(*p)).collect(),
-                ps.iter().map(|p| format!("p{}", p)).collect(),
+                qs.as_ref().unwrap_or(ps).iter().map(|p| format!("p{}", p)).collect(),
             ),
             Op::Inv(h) => g.invalidate_handle(&FactHandle::new(*h)),
         }
@@ -127,7 +138,7 @@ impl Ref {
     }
     fn apply(&mut self, op: &Op) {
         match op {
-            Op::Ins(h, _, ps) => self.justs.push((*h, ps.clone())),
+            Op::Ins(h, _, ps, _) => self.justs.push((*h, ps.clone())),
             Op::Inv(h) => {
                 self.dead.insert(*h);
             }
@@ -136,7 +147,7 @@ impl Ref {
     }
     fn ok(&self, op: &Op) -> bool {
         match op {
-            Op::Ins(_, _, ps) => ps.iter().all(|p| !self.dead.contains(p)),
+            Op::Ins(_, _, ps, _) => ps.iter().all(|p| !self.dead.contains(p)),
             Op::Inv(_) => true,
         }
     }
@@ -188,7 +199,7 @@ fn enumerate(nh: u64, maxp: usize, len: usize, out: &mut Vec<Vec<Op>>) {
                     }
                     let mut ps = e.clone();
                     ps.extend(used1..used1 + j);
-                    let op = Op::Ins(h, 0, ps);
+                    let op = ins(h, 0, ps);
                     if !r.ok(&op) {
                         continue;
                     }
@@ -210,12 +221,12 @@ fn enumerate(nh: u64, maxp: usize, len: usize, out: &mut Vec<Vec<Op>>) {
 /// so every insertion order (dependents before premises included) of these shapes occurs.
 fn menu() -> Vec<Op> {
     vec![
-        Op::Ins(1, 0, vec![0]),
-        Op::Ins(2, 0, vec![0]),
-        Op::Ins(3, 0, vec![1, 2]),
-        Op::Ins(3, 0, vec![4]),
-        Op::Ins(4, 0, vec![1]),
-        Op::Ins(1, 0, vec![]),
+        ins(1, 0, vec![0]),
+        ins(2, 0, vec![0]),
+        ins(3, 0, vec![1, 2]),
+        ins(3, 0, vec![4]),
+        ins(4, 0, vec![1]),
+        ins(1, 0, vec![]),
         Op::Inv(0),
         Op::Inv(1),
         Op::Inv(4),
@@ -252,7 +263,7 @@ fn concretise(rng: &mut Rng, ops: &[Op]) -> String {
     let ops: Vec<Op> = ops
         .iter()
         .map(|o| match o {
-            Op::Ins(h, _, ps) => Op::Ins(ids[*h as usize], km[*h as usize], ps.iter().map(|p| ids[*p as usize]).collect()),
+            Op::Ins(h, _, ps, _) => ins(ids[*h as usize], km[*h as usize], ps.iter().map(|p| ids[*p as usize]).collect()),
             Op::Inv(h) => Op::Inv(ids[*h as usize]),
         })
         .collect();
@@ -262,6 +273,267 @@ fn concretise(rng: &mut Rng, ops: &[Op]) -> String {
     k.sort();
     k.dedup();
     show_case(&u, &k, &ops)
+}
+
+/// number of key modes of `keys_for`
+const KEY_MODES: u64 = 10;
+
+/// The `premise_keys` argument of insert_proof for the premises `ps` under key mode `m`. The keys are
+/// "for human-readable tracing" (Justification::premise_keys) and insert_proof takes them as an
+/// independent Vec, so every relation between the two lists is a legal call.
+fn keys_for(rng: &mut Rng, m: u64, ps: &[u64]) -> Option<Vec<u64>> {
+    match m {
+        0 => None,                                                   // one matching key per premise
+        1 => Some(vec![]),                                           // no keys at all
+        2 => Some(ps[..ps.len().saturating_sub(1)].to_vec()),        // last premise un-keyed
+        3 => Some(ps.iter().skip(1).copied().collect()),             // first key missing: shorter and shifted
+        4 => Some(ps.iter().take(1).copied().collect()),             // only the first premise keyed
+        5 => Some(ps.iter().copied().chain([90, 91]).collect()),     // longer than the premises
+        6 => Some(ps.iter().rev().copied().collect()),               // permuted
+        7 => Some(ps.iter().map(|_| ps[0]).collect()),               // one key repeated
+        8 => Some(ps.iter().map(|p| p + 50).collect()),              // keys of handles that do not occur
+        _ => {
+            let n = rng.below(ps.len() as u64 + 2);
+            Some((0..n).map(|_| if ps.is_empty() || rng.chance(1, 4) { rng.range(1, 40) } else { *rng.pick(ps) }).collect())
+        }
+    }
+}
+
+/// give every insertion of a case a key list: `mode` < KEY_MODES for all, otherwise a random mode per insertion
+fn with_keys(rng: &mut Rng, ops: &[Op], mode: u64) -> Vec<Op> {
+    ops.iter()
+        .map(|o| match o {
+            Op::Ins(h, k, ps, _) => {
+                let m = if mode < KEY_MODES { mode } else { rng.below(KEY_MODES) };
+                Op::Ins(*h, *k, ps.clone(), keys_for(rng, m, ps))
+            }
+            o => o.clone(),
+        })
+        .collect()
+}
+
+/// rename arbitrary canonical labels to random distinct handle ids (1..=40) and give every handle a key
+/// from one of three key maps (own key / one shared key / two keys); observe every handle and key
+fn concretise_any(rng: &mut Rng, ops: &[Op]) -> String {
+    let mut labels: Vec<u64> = vec![];
+    for o in ops {
+        let mut see = |l: u64| {
+            if !labels.contains(&l) {
+                labels.push(l)
+            }
+        };
+        match o {
+            Op::Ins(h, _, ps, _) => {
+                see(*h);
+                ps.iter().for_each(|p| see(*p));
+            }
+            Op::Inv(h) => see(*h),
+        }
+    }
+    let mut pool: Vec<u64> = (1..=40).collect();
+    rng.shuffle(&mut pool);
+    let id = |l: u64| pool[labels.iter().position(|x| *x == l).unwrap()];
+    let kmode = rng.below(3);
+    let keyof = |l: u64| {
+        let i = labels.iter().position(|x| *x == l).unwrap() as u64;
+        match kmode {
+            0 => i,
+            1 => 0,
+            _ => i % 2,
+        }
+    };
+    let ops: Vec<Op> = ops
+        .iter()
+        .map(|o| match o {
+            Op::Ins(h, _, ps, qs) => Op::Ins(
+                id(*h),
+                keyof(*h),
+                ps.iter().map(|p| id(*p)).collect(),
+                qs.as_ref().map(|q| q.iter().map(|x| if labels.contains(x) { id(*x) } else { *x }).collect()),
+            ),
+            Op::Inv(h) => Op::Inv(id(*h)),
+        })
+        .collect();
+    let mut u: Vec<u64> = labels.iter().map(|l| id(*l)).collect();
+    u.sort();
+    let mut k: Vec<u64> = labels.iter().map(|l| keyof(*l)).collect();
+    k.sort();
+    k.dedup();
+    show_case(&u, &k, &ops)
+}
+
+fn perms(xs: &[u64]) -> Vec<Vec<u64>> {
+    if xs.len() <= 1 {
+        return vec![xs.to_vec()];
+    }
+    let mut out = vec![];
+    for i in 0..xs.len() {
+        let mut rest = xs.to_vec();
+        let x = rest.remove(i);
+        for mut p in perms(&rest) {
+            p.insert(0, x);
+            out.push(p);
+        }
+    }
+    out
+}
+
+/// CONSTRUCTIVE family "re-proof of a node with several justifications": a node D gets k = 2..4
+/// justifications (distinct single premises, or overlapping premise sets); every premise is assigned
+/// to one of three phases — invalidated BEFORE D is invalidated directly, WHILE D is invalid, or
+/// AFTER D has been re-proved — in every combination; D is invalidated directly once, twice or not
+/// at all; the re-proof rests on a fresh handle R, on nothing, or once more on a premise that is
+/// still live; the final invalidations (remaining premises and R) come in EVERY order. Variants:
+/// the premises are themselves derived (chains P<-[root], inserted before or after D's
+/// justifications, the invalidation then hits the root), and a dependent E<-[D] watches D.
+/// k = 2 with a fresh R and no chain/dependent stays within 4 handles and 7..8 operations.
+/// `full` = all variants for every k (thorough); otherwise k = 4 only without chains/dependent.
+fn reproof_family(full: bool, out: &mut Vec<Vec<Op>>) {
+    const D: u64 = 0;
+    const R: u64 = 5;
+    const E: u64 = 6;
+    let root = |p: u64| 6 + p; // 7..10
+    for k in 2..=4u64 {
+        let prem: Vec<u64> = (1..=k).collect();
+        for shape in 0..2 {
+            let justs: Vec<Vec<u64>> = match (shape, k) {
+                (0, _) => prem.iter().map(|p| vec![*p]).collect(),
+                (_, 2) => vec![vec![1], vec![1, 2]],
+                _ => prem.iter().map(|p| vec![*p, p % k + 1]).collect(),
+            };
+            for assign in 0..3u64.pow(k as u32) {
+                let phase = |p: u64| (assign / 3u64.pow((p - 1) as u32)) % 3;
+                let a: Vec<u64> = prem.iter().copied().filter(|p| phase(*p) == 0).collect();
+                let b: Vec<u64> = prem.iter().copied().filter(|p| phase(*p) == 1).collect();
+                let c: Vec<u64> = prem.iter().copied().filter(|p| phase(*p) == 2).collect();
+                for kind in 0..3 {
+                    if kind == 2 && c.is_empty() {
+                        continue;
+                    }
+                    for direct in [1usize, 2, 0] {
+                        for chain in 0..4 {
+                            for dep in 0..2 {
+                                if !full && k == 4 && (chain != 0 || dep != 0) {
+                                    continue;
+                                }
+                                let chained: Vec<u64> = match chain {
+                                    0 => vec![],
+                                    3 => vec![1],
+                                    _ => prem.clone(),
+                                };
+                                let target = |p: u64| if chained.contains(&p) { root(p) } else { p };
+                                let mut pre: Vec<Op> = vec![];
+                                if chain == 1 || chain == 3 {
+                                    pre.extend(chained.iter().map(|p| ins(*p, 0, vec![root(*p)])));
+                                }
+                                pre.extend(justs.iter().map(|j| ins(D, 0, j.clone())));
+                                if chain == 2 {
+                                    pre.extend(chained.iter().map(|p| ins(*p, 0, vec![root(*p)])));
+                                }
+                                if dep == 1 {
+                                    pre.push(ins(E, 0, vec![D]));
+                                }
+                                pre.extend(a.iter().map(|p| Op::Inv(target(*p))));
+                                for _ in 0..direct {
+                                    pre.push(Op::Inv(D));
+                                }
+                                pre.extend(b.iter().map(|p| Op::Inv(target(*p))));
+                                pre.push(match kind {
+                                    0 => ins(D, 0, vec![R]),
+                                    1 => ins(D, 0, vec![]),
+                                    _ => ins(D, 0, vec![c[0]]),
+                                });
+                                let mut fin = c.clone();
+                                if kind == 0 {
+                                    fin.push(R);
+                                }
+                                for pm in perms(&fin) {
+                                    let mut ops = pre.clone();
+                                    ops.extend(pm.iter().map(|p| Op::Inv(if *p == R { R } else { target(*p) })));
+                                    let mut r = Ref::default();
+                                    let mut wf = true;
+                                    for o in &ops {
+                                        if !r.ok(o) {
+                                            wf = false;
+                                            break;
+                                        }
+                                        r.apply(o);
+                                    }
+                                    if wf {
+                                        out.push(ops);
+                                    }
+                                }
+                            }
+                        }
+                    }
+                }
+            }
+        }
+    }
+}
+
+/// Every well-formed history of exactly `len` operations on ONE node D = 0 with up to three
+/// single-premise justifications D<-[1], D<-[2], D<-[3], a premise-free re-proof being absent on
+/// purpose (it would mask stale justifications): menu = the three insertions (repeatable: duplicate
+/// justifications) and the invalidation of D and of each premise, up to renaming of the premises
+/// (they are introduced in the order 1, 2, 3). Contains every "invalidate directly, lose some
+/// justifications while invalid, re-prove, invalidate the rest in every order" history of 2..3
+/// justifications with all its neighbours.
+fn enumerate_node_menu(len: usize, out: &mut Vec<Vec<Op>>) {
+    fn go(len: usize, seen: u64, r: &Ref, cur: &mut Vec<Op>, out: &mut Vec<Vec<Op>>) {
+        if cur.len() == len {
+            out.push(cur.clone());
+            return;
+        }
+        let mut menu: Vec<(Op, u64)> = vec![(Op::Inv(0), 0)];
+        for p in 1..=3u64.min(seen + 1) {
+            menu.push((ins(0, 0, vec![p]), p));
+            menu.push((Op::Inv(p), p));
+        }
+        for (op, p) in menu {
+            if !r.ok(&op) {
+                continue;
+            }
+            let mut r2 = r.clone();
+            r2.apply(&op);
+            cur.push(op);
+            go(len, seen.max(p), &r2, cur, out);
+            cur.pop();
+        }
+    }
+    go(len, 0, &Ref::default(), &mut vec![], out);
+}
+
+/// CONSTRUCTIVE family "premise_keys unrelated to premises": a proof D with 1..3 premises inserted
+/// under every key mode, optionally with a dependent E<-[D] (inserted before or after D) and a
+/// second justification of D; then each premise is invalidated in turn (every premise position).
+fn keys_family(rng: &mut Rng, out: &mut Vec<Vec<Op>>) {
+    for n in 1..=3u64 {
+        let ps: Vec<u64> = (1..=n).collect();
+        for mode in 0..KEY_MODES {
+            for dep in 0..3 {
+                for second in 0..2 {
+                    for victim in 1..=n {
+                        let mut ops = vec![];
+                        if dep == 2 {
+                            ops.push(Op::Ins(6, 0, vec![0], keys_for(rng, mode, &[0])));
+                        }
+                        ops.push(Op::Ins(0, 0, ps.clone(), keys_for(rng, mode, &ps)));
+                        if dep == 1 {
+                            ops.push(Op::Ins(6, 0, vec![0], keys_for(rng, mode, &[0])));
+                        }
+                        if second == 1 {
+                            ops.push(Op::Ins(0, 0, vec![victim, 5], keys_for(rng, mode, &[victim, 5])));
+                        }
+                        ops.push(Op::Inv(victim));
+                        // then the others, then the second justification's own premise
+                        ops.extend(ps.iter().filter(|p| **p != victim).map(|p| Op::Inv(*p)));
+                        out.push(ops);
+                    }
+                }
+            }
+        }
+    }
 }
 
 fn random_case(rng: &mut Rng, maxlen: u64) -> String {
@@ -274,6 +546,7 @@ fn random_case(rng: &mut Rng, maxlen: u64) -> String {
     let len = rng.range(1, maxlen);
     let mut r = Ref::default();
     let mut ops: Vec<Op> = vec![];
+    let keyed = rng.chance(1, 2); // premise_keys drawn independently of the premises
     let style = rng.below(4); // 0: anything, 1: dependents first (conclusion ids descending), 2: premises first, 3: few invalidations
     for _ in 0..len {
         let inserted: Vec<usize> = (0..nh as usize).filter(|i| r.justs.iter().any(|(c, _)| *c == ids[*i])).collect();
@@ -313,7 +586,9 @@ fn random_case(rng: &mut Rng, maxlen: u64) -> String {
             ps.push(ids[*rng.pick(&cand)]); // duplicates and self-premises can occur
         }
         let k = if rng.chance(1, 8) { rng.below(nk) } else { home[ci] };
-        let op = Op::Ins(ids[ci], k, ps);
+        let km = rng.below(KEY_MODES);
+        let qs = if keyed { keys_for(rng, km, &ps) } else { None };
+        let op = Op::Ins(ids[ci], k, ps, qs);
         debug_assert!(r.ok(&op));
         r.apply(&op);
         ops.push(op);
@@ -348,6 +623,54 @@ fn gen(rng: &mut Rng, n: usize, tier: &str) -> Vec<String> {
             out.push(concretise(rng, h));
         }
     }
+    {
+        // one node, up to three single-premise justifications, every invalidation: all words of 7 (thorough 8)
+        let len = if tier == "thorough" { 8 } else { 7 };
+        let mut hs = vec![];
+        enumerate_node_menu(len, &mut hs);
+        eprintln!("c17 gen: exhaustive one-node menu family (D<-[P|Q|R], xD, xP, xQ, xR up to renaming) len={} -> {} well-formed histories", len, hs.len());
+        for h in &hs {
+            out.push(concretise_any(rng, h));
+        }
+    }
+    {
+        let mut hs = vec![];
+        reproof_family(tier == "thorough", &mut hs);
+        eprintln!("c17 gen: constructive re-proof family (k=2..4 justifications, phases before/while/after, all final orders, chains, dependent) -> {} histories", hs.len());
+        for (i, h) in hs.iter().enumerate() {
+            // every fourth history also with premise_keys unrelated to the premises
+            if i % 4 == 3 {
+                let m = rng.below(KEY_MODES + 3);
+                let h2 = with_keys(rng, h, m);
+                out.push(concretise_any(rng, &h2));
+            } else {
+                out.push(concretise_any(rng, h));
+            }
+        }
+    }
+    {
+        let mut hs = vec![];
+        keys_family(rng, &mut hs);
+        // and the smallest exhaustive family once more with a random key mode per insertion
+        let mut ex = vec![];
+        enumerate(5, 2, 3, &mut ex);
+        for h in &ex {
+            let m = rng.below(KEY_MODES + 3);
+            hs.push(with_keys(rng, h, m));
+        }
+        eprintln!("c17 gen: premise_keys family (every key mode x premise position x dependent/second justification + keyed 3-op histories) -> {} histories", hs.len());
+        for h in &hs {
+            out.push(concretise_any(rng, h));
+        }
+    }
+    if tier == "thorough" {
+        let mut hs = vec![];
+        enumerate_menu(7, &mut hs);
+        eprintln!("c17 gen: exhaustive menu family len=7 -> {} well-formed histories", hs.len());
+        for h in &hs {
+            out.push(concretise(rng, h));
+        }
+    }
     let maxlen = if tier == "thorough" { 12 } else { 9 };
     for _ in 0..n {
         out.push(random_case(rng, maxlen));
@@ -359,12 +682,25 @@ fn shrink(case: &str) -> Vec<String> {
     let Some((u, k, ops)) = parse_case(case) else { return vec![] };
     let mut out: Vec<String> = shrink_list(&ops).into_iter().map(|o| show_case(&u, &k, &o)).collect();
     for i in 0..ops.len() {
-        if let Op::Ins(h, kk, ps) = &ops[i] {
+        if let Op::Ins(h, kk, ps, qs) = &ops[i] {
+            if let Some(q) = qs {
+                // the default key list first (then the keys did not matter), then shorter key lists
+                let mut o2 = ops.clone();
+                o2[i] = Op::Ins(*h, *kk, ps.clone(), None);
+                out.push(show_case(&u, &k, &o2));
+                for j in 0..q.len() {
+                    let mut q2 = q.clone();
+                    q2.remove(j);
+                    let mut o2 = ops.clone();
+                    o2[i] = Op::Ins(*h, *kk, ps.clone(), Some(q2));
+                    out.push(show_case(&u, &k, &o2));
+                }
+            }
             for j in 0..ps.len() {
                 let mut p2 = ps.clone();
                 p2.remove(j);
                 let mut o2 = ops.clone();
-                o2[i] = Op::Ins(*h, *kk, p2);
+                o2[i] = Op::Ins(*h, *kk, p2, qs.clone());
                 out.push(show_case(&u, &k, &o2));
             }
         }
@@ -378,6 +714,18 @@ fn main() {
     if args.get(1).map(|s| s.as_str()) == Some("count-menu") {
         let mut hs = vec![];
         enumerate_menu(args[2].parse().unwrap(), &mut hs);
+        println!("{}", hs.len());
+        return;
+    }
+    if args.get(1).map(|s| s.as_str()) == Some("count-node-menu") {
+        let mut hs = vec![];
+        enumerate_node_menu(args[2].parse().unwrap(), &mut hs);
+        println!("{}", hs.len());
+        return;
+    }
+    if args.get(1).map(|s| s.as_str()) == Some("count-reproof") {
+        let mut hs = vec![];
+        reproof_family(args[2] == "full", &mut hs);
         println!("{}", hs.len());
         return;
     }
